@@ -280,6 +280,30 @@ def derived(ctx):
             if np.abs(R + F).max() > 1e-9 * np.abs(F).max():
                 ctx.violation(f"reaction-balance/{et}", f"reactions {R} do not balance the applied loads {F} on {et}", {"elem": str(et)})
             ctx.count(1, distinct_key=("reaction", str(et)))
+            # the nodal resultant under every time scheme: K u (static), K u + C v (first order), K u + C v + M a (every second-order
+            # scheme, whatever the scheme's own step matrix is made of), on an arbitrary state with Rayleigh damping
+            from EasyFEA.Simulations.Solvers import AlgoType
+
+            sim.Bc_Init()
+            sim.rho = 1.3
+            sim.Set_Rayleigh_Damping_Coefs(0.4, 0.2)
+            N = mesh.Nn * 2
+            U, V, A = (rng.uniform(-1, 1, N) * 1e-2 for _ in range(3))
+            sim._Set_solutions(sim.problemType, U.copy(), V.copy(), A.copy())
+            for algo in ["elliptic", "parabolic"] + [str(a) for a in AlgoType.Get_Hyperbolic_Types()]:
+                if algo == "elliptic":
+                    sim.Solver_Set_Elliptic_Algorithm()
+                elif algo == "parabolic":
+                    sim.Solver_Set_Parabolic_Algorithm(0.1, 0.5)
+                else:
+                    sim.Solver_Set_Hyperbolic_Algorithm(0.1, algo=AlgoType(algo), alpha=0.25)
+                Kx, Cx, Mx, _ = sim.Get_K_C_M_F()
+                expR = Kx @ U + (0 if algo == "elliptic" else Cx @ V) + (0 if algo in ("elliptic", "parabolic") else Mx @ A)
+                gotR = sim.Calc_Reaction(dofs)
+                if gotR.shape != expR[dofs].shape or np.abs(gotR - expR[dofs]).max() > 1e-10 * np.abs(expR).max():
+                    ctx.violation(f"reaction-scheme/{algo}", f"Calc_Reaction under {algo} on {et} differs from K u{'' if algo == 'elliptic' else ' + C v'}{'' if algo in ('elliptic', 'parabolic') else ' + M a'} by {np.abs(gotR - expR[dofs]).max():.3g} (scale {np.abs(expR).max():.3g})", {"elem": str(et), "algo": algo})
+                ctx.count(1, distinct_key=("reaction-scheme", algo))
+            sim.Solver_Set_Elliptic_Algorithm()
 
 
 def balance(ctx, cases):
